@@ -165,33 +165,62 @@ Proof.
     + intros E0. apply Hnin. left. exact E0.
 Qed.
 
+(* formats of one media that share a payload type are the same format (true of everything the parser
+   builds: the attributes are looked up by payload type only) *)
+Definition same_pt_eq (fs : list fmt) : Prop :=
+  forall f g, In f fs -> In g fs -> fmt_pt f = fmt_pt g -> f = g.
+
+Lemma NoDup_same_pt_eq fs : NoDup (map fmt_pt fs) -> same_pt_eq fs.
+Proof.
+  induction fs as [|h t IH]; intros Hnd f g Hf Hg Hpt; [destruct Hf|].
+  cbn [map] in Hnd. inversion Hnd as [|? ? Hnin Hnd']; subst.
+  destruct Hf as [<-|Hf], Hg as [<-|Hg].
+  - reflexivity.
+  - exfalso. apply Hnin. rewrite Hpt. apply in_map. exact Hg.
+  - exfalso. apply Hnin. rewrite <- Hpt. apply in_map. exact Hf.
+  - apply IH; assumption.
+Qed.
+
 Lemma lookup_in_formats E isapp fs : forall A,
-  Forall (wf_fmt_full E isapp) fs -> NoDup (map fmt_pt fs) -> fmts_attrs fs = Ok A ->
+  Forall (wf_fmt_full E isapp) fs -> same_pt_eq fs -> fmts_attrs fs = Ok A ->
   forall post, other_keys post ->
   forall f rtpmap fm, In f fs -> fmt_rtpmap f = Some rtpmap -> fmt_fmtp f = Some fm ->
   get_fmt_attr (A ++ post) (fmt_pt f) $"rtpmap" = rtpmap /\
   get_fmt_attr (A ++ post) (fmt_pt f) $"fmtp" = match fm with [] => [] | _ => fmtp_body fm end.
 Proof.
-  induction fs as [|g t IH]; intros A Hwf Hnd HA post Hpost f rtpmap fm Hin Hr Hf; [destruct Hin|].
+  induction fs as [|g t IH]; intros A Hwf Hsame HA post Hpost f rtpmap fm Hin Hr Hf; [destruct Hin|].
   inversion Hwf as [|? ? [Hg1 Hg2] Ht]; subst.
-  cbn [map] in Hnd. inversion Hnd as [|? ? Hnin Hnd']; subst.
+  assert (Hsame' : same_pt_eq t).
+  { intros x y Hx Hy. apply Hsame; right; assumption. }
   destruct (wf_getters E isapp g Hg1) as (rg & fg & Hrg & Hfg).
   rewrite fmts_attrs_cons, (fmt_attrs_eq g rg fg Hrg Hfg) in HA. cbn [rbind] in HA.
   destruct (fmts_attrs t) as [B| |] eqn:EB; cbn [rbind] in HA; try discriminate. injection HA as <-.
   destruct (fmt_text_ok E _ g rg fg Hg1 Hg2 Hrg Hfg) as (Hpt & Hlast & Hkv).
   rewrite <- app_assoc.
-  destruct Hin as [<-|Hin].
-  - rewrite Hrg in Hr. injection Hr as <-. rewrite Hfg in Hf. injection Hf as <-.
+  (* the rest of the list either contains f again or nothing with f's payload type *)
+  assert (Hrest : forall f0 r0 m0, fmt_pt f0 = fmt_pt g -> f0 = g -> fmt_rtpmap f0 = Some r0 -> fmt_fmtp f0 = Some m0 ->
+            (r0 = [] -> get_fmt_attr (B ++ post) (fmt_pt g) $"rtpmap" = []) /\
+            (m0 = [] -> get_fmt_attr (B ++ post) (fmt_pt g) $"fmtp" = [])).
+  { intros f0 r0 m0 _ -> Hr0 Hm0.
+    destruct (in_dec N.eq_dec (fmt_pt g) (map fmt_pt t)) as [Hi|Hni].
+    - apply in_map_iff in Hi. destruct Hi as (g' & Hpt' & Hg').
+      assert (g' = g) by (apply Hsame; [right; exact Hg'|left; reflexivity|exact Hpt']). subst g'.
+      destruct (IH B Ht Hsame' eq_refl post Hpost g r0 m0 Hg' Hr0 Hm0) as [I1 I2].
+      split; intros ->; [exact I1|exact I2].
+    - split; intros _.
+      + apply (lookup_absent E isapp t B Ht EB post (fmt_pt g) $"rtpmap" Hpost (or_introl eq_refl) Hni).
+      + apply (lookup_absent E isapp t B Ht EB post (fmt_pt g) $"fmtp" Hpost (or_intror eq_refl) Hni). }
+  destruct (N.eq_dec (fmt_pt g) (fmt_pt f)) as [Epf|Hne].
+  - assert (f = g) by (apply Hsame; [exact Hin|left; reflexivity|symmetry; exact Epf]). subst f.
+    rewrite Hrg in Hr. injection Hr as <-. rewrite Hfg in Hf. injection Hf as <-.
     rewrite lookup_own_rtpmap, lookup_own_fmtp by assumption.
+    destruct (Hrest g rg fg eq_refl eq_refl Hrg Hfg) as [R1 R2].
     split.
-    + destruct rg as [|c r]; cbn [nonempty]; [|reflexivity].
-      apply (lookup_absent E isapp t B Ht EB post (fmt_pt g) $"rtpmap" Hpost (or_introl eq_refl) Hnin).
-    + destruct fg; [|reflexivity].
-      apply (lookup_absent E isapp t B Ht EB post (fmt_pt g) $"fmtp" Hpost (or_intror eq_refl) Hnin).
-  - assert (Hne : fmt_pt g <> fmt_pt f).
-    { intros E0. apply Hnin. rewrite E0. apply in_map. exact Hin. }
+    + destruct rg as [|c r]; cbn [nonempty]; [apply R1; reflexivity|reflexivity].
+    + destruct fg; [apply R2; reflexivity|reflexivity].
+  - destruct Hin as [<-|Hin]; [contradiction|].
     rewrite !lookup_other by assumption.
-    apply (IH B Ht Hnd' eq_refl post Hpost f rtpmap fm Hin Hr Hf).
+    apply (IH B Ht Hsame' eq_refl post Hpost f rtpmap fm Hin Hr Hf).
 Qed.
 
 Lemma unmarshal_formats_ok E ord mt attrs fs :
@@ -279,7 +308,7 @@ Qed.
 (* ---------- Media ---------- *)
 Definition wf_media (E : ext) (m : media) : Prop :=
   Forall (fun c => is_alnum c = true) (m_id m) /\ wf_mikey E (m_mikey m) /\ m_formats m <> [] /\
-  NoDup (map fmt_pt (m_formats m)) /\
+  same_pt_eq (m_formats m) /\
   Forall (wf_fmt_full E (is (m_type m) $"application")) (m_formats m).
 
 Definition add_post (md : mdesc) (post : list attr) : mdesc :=
